@@ -17,6 +17,7 @@ import TboxModel.C12.ProofsPipe
 import TboxModel.C12.ProofsWire
 import TboxModel.C12.ProofsResp
 import TboxModel.C12.ProofsUrl
+import TboxModel.C12.ProofsServer
 namespace Tbox.C12
 
 /-! ## A. parser and feed loop -/
@@ -273,20 +274,6 @@ theorem C12_no_response_stuck (ops : List PipeOp) (hok : traceOk {} ops = true) 
     (Pipe.run {} ops).resBuff.find? (fun e => e.1 == (Pipe.run {} ops).resIndex) = none :=
   (run_inv {} ops inv_init (by intro _ _; rfl) hok).2
 
-theorem step_invalid (p : Pipe) (op : PipeOp) (h : p.valid = false) :
-    (p.step op).valid = false ∧ (p.step op).written = p.written := by
-  cases op <;> simp [Pipe.step, Pipe.onRequest, Pipe.commit, Pipe.sendComplete, Pipe.peerClosed, Pipe.kernel, Pipe.writeError, h]
-
-theorem run_invalid (p : Pipe) (ops : List PipeOp) (h : p.valid = false) :
-    (p.run ops).valid = false ∧ (p.run ops).written = p.written := by
-  induction ops generalizing p with
-  | nil => exact ⟨h, rfl⟩
-  | cons op ops ih =>
-    have h1 := step_invalid p op h
-    have := ih (p.step op) h1.1
-    simp only [Pipe.run, List.foldl_cons] at this ⊢
-    exact ⟨this.1, this.2.trans h1.2⟩
-
 /-- C12_nothing_after_close: for every admissible history, once request `k` asked for the
 connection to be closed no response with an index beyond `k` is ever written; when the
 response to `k` has been written the next send-complete drops the connection; and on a dropped
@@ -425,6 +412,59 @@ server, closed by the peer, parser failure) writes nothing and tears nothing dow
 theorem C12_commit_after_gone (ops : List PipeOp) (i : Nat) (r : Bytes) (hg : (Pipe.run {} ops).valid = false) :
     ((Pipe.run {} ops).step (.commit i r)) = Pipe.run {} ops := by
   simp [Pipe.step, Pipe.commit, hg]
+
+/-! ### user callbacks: scripted handler chains -/
+
+def PipeOp.isCommit : PipeOp → Bool
+  | .commit _ _ => true
+  | _ => false
+
+/-- C12_handler_commits_once: whatever the handlers of the chain do for a request — call `next()`
+never, once or several times at any level, set the response at several levels, throw, stop or
+clean up the server — the request produces exactly one commit (when the chain returns or
+unwinds) unless a handler kept the context, and then none: one Context, one response. -/
+theorem C12_handler_commits_once (s : Server) (last : Bool) :
+    (((s.handleReq last).1.hist.drop s.hist.length).countP PipeOp.isCommit)
+      = if (s.handleReq last).2.kept then 0 else 1 := by
+  simp only [Server.handleReq, Server.emit]
+  split <;> rename_i hk
+  · simp only [hk, if_true, List.drop_left' rfl, List.append_nil, List.countP_cons, PipeOp.isCommit]
+    split <;> simp [PipeOp.isCommit]
+  · simp only [hk, List.drop_left' rfl, commitOps, List.countP_cons, List.countP_append, PipeOp.isCommit]
+    split <;> simp [PipeOp.isCommit]
+
+/-- C12_scripted_admissible: for EVERY sequence of things that can happen to a connection —
+segments of any bytes, handler scripts of any shape for any request (respond at once, `next()`
+zero/one/several times, keep the context and answer later, answer after the peer closed, throw,
+`stop()`/`cleanup()` from inside the handler), late completions, peer close / half-close, write
+failures — the history of pipeline operations the server performs is admissible (`traceOk`) and
+the pipeline state is exactly the result of that history.  Hence every pipeline theorem above
+(in order, exactly once, nothing after the closing response, single tear-down, …) holds for the
+server with arbitrary user callbacks; the corollary spells the main ones out. -/
+theorem C12_scripted_admissible (ops : List SrvOp) :
+    (ops.foldl Server.step {}).pipe = Pipe.run {} (ops.foldl Server.step {}).hist ∧
+    traceOk {} (ops.foldl Server.step {}).hist = true :=
+  let h := run_sinv ops {} sinv_init
+  ⟨h.hist, h.ok⟩
+
+theorem C12_scripted_pipelining (ops : List SrvOp) :
+    let p := (ops.foldl Server.step {}).pipe
+    InOrderOnce p.written p.resIndex ∧ (p.written.map (·.1)).Nodup ∧
+    (∀ k, p.closeIndex = some k → ∀ x ∈ p.written, x.1 ≤ k) ∧ p.disconnects ≤ 1 ∧
+    (p.valid = true → p.pastClose = false → p.resBuff.find? (fun e => e.1 == p.resIndex) = none) := by
+  obtain ⟨h1, h2⟩ := C12_scripted_admissible ops
+  simp only
+  rw [h1]
+  exact ⟨(C12_in_order_once _ h2).1, C12_written_once _ h2, fun k hk => (C12_nothing_after_close _ h2 k hk).1,
+    (C12_single_disconnect _ []).1, C12_no_response_stuck _ h2⟩
+
+/-- non-vacuity: handlers that call next() twice, keep the context, stop the server -/
+example : tablesStd = true →
+    let three := ascii "GET /0 HTTP/1.1\r\nContent-Length: 0\r\n\r\nGET /1 HTTP/1.1\r\nContent-Length: 0\r\n\r\nGET /2 HTTP/1.1\r\nContent-Length: 0\r\n\r\n"
+    let s := [SrvOp.script 0 [[.next, .next], [.body [65], .keep]], .script 1 [[.body [66]]], .script 2 [[.stop]],
+              .seg three, .done 0 {}].foldl Server.step {}
+    s.pipe.reqIndex = 3 ∧ s.pipe.written.map (·.1) = [] ∧ s.pipe.valid = false ∧ s.outstanding = [] := by
+  decide +kernel
 
 /-! ### what is written for a Respond value -/
 
